@@ -27,8 +27,9 @@ MIN_NONTRIVIAL = {'quick': 100, 'thorough': 1000}
 MIN_EVALS = {'construction': 100, 'frame+readback': 1000, 'pickup-satisfied': 20, 'solve-height-reached': 20,
              'image-solve': 10, 'C01.at-most-one-stop': 100, 'C01.exactly-one-primary': 100}
 ASSUMPTIONS = ['media are compared by index at three wavelengths', 'the conic of a plane is not observable and is not edited',
-               'pickups are generated so that no source is a target and solves are added in increasing surface order '
-               '(one-pass application is the documented semantics)']
+               'pickup chains are generated source-first (a source may be the target of a pickup added earlier, never of a later '
+               'one) and solves are added in increasing surface order (one-pass application in the order of addition is the '
+               'documented semantics)']
 ANCHORS = [('optiland.surfaces.surface_factory', 'SurfaceFactory._configure_cs'),
            ('optiland.surfaces.surface_factory', 'SurfaceFactory._configure_material'),
            ('optiland.surfaces.surface_group', 'SurfaceGroup.add_surface'),
@@ -158,7 +159,9 @@ def gen_case(rng, tier, i):
             tgt = int(rng.integers(1, K))
             if attr == 'conic' and (plane[src - 1] or plane[tgt - 1]):
                 continue
-            if src == tgt or src in pick_targets or tgt in pick_sources or tgt in pick_targets:
+            # chains are allowed in the order one pass can satisfy: the source may be the target of a pickup added EARLIER
+            # (pickups are applied in the order they were added); a target is never a source of an earlier pickup
+            if src == tgt or tgt in pick_sources or tgt in pick_targets:
                 continue
             if attr == 'radius' and plane[src - 1]:
                 continue            # scale*inf+offset
@@ -181,7 +184,11 @@ def gen_case(rng, tier, i):
         elif r < 0.95:
             ops.append(['image_solve'])
         else:
-            ops.append(['add_wavelength', round(float(rng.uniform(0.4, 0.8)), 5), bool(rng.random() < 0.4)])
+            if rng.random() < 0.3:
+                # a value that is already in the list, asked for as primary: the only way to move the primary flag
+                ops.append(['add_wavelength', float(spec['wavelengths'][int(rng.integers(len(spec['wavelengths'])))][0]), True])
+            else:
+                ops.append(['add_wavelength', round(float(rng.uniform(0.4, 0.8)), 5), bool(rng.random() < 0.4)])
     ops.append(['update'])
     tail = []
     if rng.random() < 0.3:
